@@ -4,9 +4,11 @@ set -e
 cd "$(dirname "$0")"
 java -version 2>&1 | head -1
 /venv/bin/python -c "import numpy, scipy, cma, dill, treelib, jsonschema; print('python deps ok')"
-for f in spec/*.tla; do
+cd spec
+for f in *.tla; do
   tla-sany "$f" >/dev/null 2>&1 || { echo "SANY failed on $f"; tla-sany "$f" | tail -20; exit 1; }
 done
+cd ..
 echo "specs parse"
 mkdir -p work evidence
 echo "setup ok"
